@@ -42,6 +42,8 @@ use crate::sparse::{Node, SparseMatrix};
 use crate::util::*;
 #[cfg(ldpc_toolbox_verif)]
 use crate::verif_seam::rayon;
+#[cfg(ldpc_toolbox_verif)]
+use crate::verif_seam::std;
 use rand::seq::IteratorRandom;
 use rayon::prelude::*;
 use std::fmt;
